@@ -203,6 +203,8 @@ class Session(object):
         raise ValueError(kind)
 
     def _threads(self, op):
+        if op.get("api") == "function":
+            return self._threads_function(op)
         kinds = ["etree", "dom", "strict"][:len(op["texts"])]
         gates = [threading.Semaphore(0) for _ in kinds]
         free = threading.Event()
@@ -248,6 +250,61 @@ class Session(object):
             if results[i] != want:
                 return "threads-differ:" + kind, "parser %s running concurrently gives %s, alone %s for %s" % (kind, _brief(results[i]), _brief(want), short(op["texts"][i], 120))
         return None
+
+
+def _fn_parse(text_source, builder):
+    import html5lib
+    try:
+        return ("ok", obs.flat(html5lib.parse(text_source, treebuilder=builder)))
+    except Exception as e:
+        return ("raise", type(e).__name__, str(e)[:100])
+
+
+def _threads_function(self, op):
+    """the module-level html5lib.parse() called from several threads at once with the SAME configuration (independent calls by
+    contract; whatever the function shares internally must not show)"""
+    n = len(op["texts"])
+    builders = ["etree", "etree", "dom"][:n]
+    gates = [threading.Semaphore(0) for _ in range(n)]
+    free = threading.Event()
+    results = [None] * n
+
+    class Gated(object):
+        def __init__(self, text, gate):
+            self.text, self.pos, self.gate = text, 0, gate
+
+        def read(self, k=-1):
+            if k == 0:
+                return ""
+            if not free.is_set() and self.gate is not None:
+                self.gate.acquire(timeout=5)
+            out = self.text[self.pos:self.pos + 6]
+            self.pos += len(out)
+            return out
+
+    def work(i):
+        results[i] = _fn_parse(Gated(op["texts"][i], gates[i]), builders[i])
+    ts = [threading.Thread(target=work, args=(i,)) for i in range(n)]
+    for t in ts:
+        t.start()
+    for k in op["schedule"]:
+        gates[k % n].release()
+    free.set()
+    for g in gates:
+        for _ in range(4):
+            g.release()
+    for t in ts:
+        t.join(20)
+    if any(t.is_alive() for t in ts):
+        return "inconclusive", "a thread did not finish"
+    for i in range(n):
+        want = _fn_parse(Gated(op["texts"][i], None), builders[i])
+        if results[i] != want:
+            return "threads-differ:function", "html5lib.parse(treebuilder=%r) running concurrently gives %s, alone %s for %s" % (builders[i], short(results[i], 200), short(want, 200), short(op["texts"][i], 120))
+    return None
+
+
+Session._threads_function = _threads_function
 
 
 def _brief(r):
@@ -349,6 +406,10 @@ class ReuseMachine(RuleBasedStateMachine):
     @rule(ds=st.lists(_doc, min_size=2, max_size=3), schedule=st.lists(st.integers(0, 2), max_size=30))
     def threads(self, ds, schedule):
         self._do({"op": "threads", "texts": [d[0] for d in ds], "schedule": schedule, "stateful": 0})
+
+    @rule(ds=st.lists(_doc, min_size=2, max_size=3), schedule=st.lists(st.integers(0, 2), max_size=30))
+    def threads_function(self, ds, schedule):
+        self._do({"op": "threads", "api": "function", "texts": [d[0] for d in ds], "schedule": schedule, "stateful": 0})
 
     def teardown(self):
         acc = type(self).acc
